@@ -418,4 +418,4 @@ def release_crosscheck(chk):
         if rsites:
             bad.append((f['name'], '%d overflow assertions remain' % len(rsites)))
     chk.count('overflow-sites cross-checked', n)
-    chk.ob('release-profile', 'overflow assertions of the arithmetic code disappear without overflow checks', not bad and n >= 10, 'sites %d, mismatches %r' % (n, bad[:5]))
+    chk.ob('release-profile', 'overflow assertions of the arithmetic code disappear without overflow checks', not bad and n >= 6, 'sites %d (floor 6, counted after the F1/F2 repairs), mismatches %r' % (n, bad[:5]))
